@@ -8,7 +8,7 @@
 From Coq Require Import List Arith Bool NArith.
 From FFSM2 Require Import Model.TaskList Model.BitArray Model.BitStream Model.Plan Model.Ancestors Model.Machine
   Proofs.BitArrayProofs Proofs.TaskListProofs Proofs.TaskListRun Proofs.PlanProofs Proofs.MachineFrame Proofs.MachinePlan Proofs.MachineLife Proofs.GuardProofs Proofs.CycleProofs Proofs.PlanStep
-  Proofs.SerialProofs Proofs.LogProofs Proofs.MachineTop Model.Multi Generated.InitFacts Proofs.ConstructProofs Proofs.LifeMonitor Proofs.ActivationRounds Proofs.IndexSafety Proofs.FeatureProofs Model.Script Proofs.Contract Proofs.Histories Proofs.StatusBits Proofs.Worlds Model.Cxx Generated.LeafCode Proofs.LeafTactics Proofs.LeafConsts Proofs.LeafCodeTaskList Proofs.LeafCodeStream Proofs.LeafCodeWide.
+  Proofs.SerialProofs Proofs.LogProofs Proofs.MachineTop Model.Multi Generated.InitFacts Proofs.ConstructProofs Proofs.LifeMonitor Proofs.ActivationRounds Proofs.IndexSafety Proofs.FeatureProofs Model.Script Proofs.Contract Proofs.Histories Proofs.StatusBits Proofs.Worlds Model.Cxx Generated.LeafCode Proofs.LeafTactics Proofs.LeafConsts Proofs.LeafCodeTaskList Proofs.LeafCodeStream Proofs.LeafCodeWide Proofs.LeafCodePlan Proofs.LeafCodePlanRemove Proofs.LeafCodePlanAppend Proofs.LeafCodePlanInv.
 Import ListNotations.
 
 (* every history of plan edits, any length: returned values (append succeeded / refused, the tasks an iterating removal
@@ -288,4 +288,65 @@ Theorem C10_source_every_history :
          src_run P cap (obj_of P (tl_init P cap)) ops = Some (obj_of P (tl_run P cap ops (tl_init P cap))).
 Proof. exact (src_TaskList_every_history). Qed.
 Print Assumptions C10_source_every_history.
+
+(* the tie to the source, by proof (DESIGN.md 4.7): the body of PlanT<Args>::append(origin, destination) as
+   tools/leafcode.py translates it from clang's typed AST of /repo's current plan_1.inl on every run - the member
+   functions of the sub-objects it calls (TaskListT::emplace / remove / count, StaticArrayT::operator[],
+   PlanT::linkTask) inlined at the call site, running in _planData.tasks / _planData.taskLinks, so the term is
+   everything the call executes - run in the interpreter of Model/Cxx.v on any plan data satisfying the plan invariant
+   PlanInv (which pd_init establishes and every plan operation preserves: plan_append_spec, plan_remove_spec above)
+   stays inside tasks and taskLinks and computes exactly the model's plan_append (capacity test, planExists, slot
+   allocation, linking at the end of the plan order), for every capacity up to 255 *)
+Theorem C10_source_plan_append_is_the_model :
+  forall (P : Type) (cap : nat) (d : plan_data P) (order : list nat) (o dst : nat),
+         PlanInv P cap d order ->
+         o <= 255 ->
+         dst <= 255 ->
+         result
+           (run leaf_ftable (pl_consts cap) PlanT__append [BinInt.Z.of_nat o; BinInt.Z.of_nat dst]
+              (pd_fields d) (pd_arrays d)) =
+         (let '(d', b) := plan_append P cap d o dst in Some (Some (b2z b), pd_fields d', pd_arrays d')).
+Proof. exact (src_Plan_append_inv). Qed.
+Print Assumptions C10_source_plan_append_is_the_model.
+
+(* the tie to the source, by proof (DESIGN.md 4.7): the body of PlanT<Args>::remove(index) as tools/leafcode.py
+   translates it from clang's typed AST of /repo's current plan_1.inl on every run - the member functions of the sub-
+   objects it calls (TaskListT::emplace / remove / count, StaticArrayT::operator[], PlanT::linkTask) inlined at the
+   call site, running in _planData.tasks / _planData.taskLinks, so the term is everything the call executes - run in
+   the interpreter of Model/Cxx.v on any plan data satisfying the plan invariant PlanInv (which pd_init establishes and
+   every plan operation preserves: plan_append_spec, plan_remove_spec above) stays inside tasks and taskLinks and
+   computes exactly the model's plan_remove (unlinking from the plan order, clearing the link, returning the slot), for
+   every capacity up to 255 *)
+Theorem C10_source_plan_remove_is_the_model :
+  forall (P : Type) (cap : nat) (d : plan_data P) (l1 : list nat) (x : nat) (l2 : list nat),
+         PlanInv P cap d (l1 ++ x :: l2) ->
+         result (run leaf_ftable (pl_consts cap) PlanT__remove [BinInt.Z.of_nat x] (pd_fields d) (pd_arrays d)) =
+         Some (None, pd_fields (plan_remove P cap d x), pd_arrays (plan_remove P cap d x)).
+Proof. exact (src_Plan_remove_inv). Qed.
+Print Assumptions C10_source_plan_remove_is_the_model.
+
+(* explicit operator bool() of PlanT, as translated from the current source: true exactly when the plan order is non-
+   empty *)
+Theorem C10_source_plan_emptiness_test_is_the_model :
+  forall (P : Type) (cap : nat) (d : plan_data P) (order : list nat),
+         PlanInv P cap d order ->
+         result (run leaf_ftable (pl_consts cap) PlanT__operator_bool [] (pd_fields d) (pd_arrays d)) =
+         Some (Some (b2z (negb (length order =? 0))), pd_fields d, pd_arrays d).
+Proof. exact (src_Plan_nonempty_inv). Qed.
+Print Assumptions C10_source_plan_emptiness_test_is_the_model.
+
+(* over whole histories: any in-contract sequence of append / remove-a-task-of-the-plan from a freshly constructed
+   PlanDataT, executed by running the translated member functions one after the other on the object (src_prun; None
+   would be a fault), never faults, returns what the model returns (the bool of every append) and leaves, object for
+   object, the model's plan data - which satisfies PlanInv, so the capacity / order / no-leak statements of this file
+   describe what the code in /repo does *)
+Theorem C10_source_plan_every_history :
+  forall (P : Type) (cap n : nat) (ops : list sop),
+         1 <= cap <= 255 ->
+         pops_ok P cap (pd_init P cap n) ops ->
+         src_prun cap (pobj_of P (pd_init P cap n)) ops =
+         Some (pobj_of P (fst (m_prun P cap (pd_init P cap n) ops)), snd (m_prun P cap (pd_init P cap n) ops)) /\
+         (exists order : list nat, PlanInv P cap (fst (m_prun P cap (pd_init P cap n) ops)) order).
+Proof. exact (src_Plan_every_history). Qed.
+Print Assumptions C10_source_plan_every_history.
 
